@@ -199,3 +199,19 @@ class VClock:
             setattr(mod, attr, val)
         self._saved.clear()
         return False
+
+
+class Falsy:
+    """a value double that is FALSY: results, elements and items handed through the library are arbitrary user objects,
+    so nothing in the library may decide by their truthiness (`if result:` where `if result is not None:` is meant)"""
+
+    __slots__ = ("tag",)
+
+    def __init__(self, tag=None):
+        self.tag = tag
+
+    def __bool__(self):
+        return False
+
+    def __repr__(self):
+        return f"Falsy({self.tag!r})"
